@@ -175,6 +175,7 @@ def gen_params(rng, tier):
     p = dict(num_hosts=rng.choice([5, 8, 12, 16, 23, 35, 43]),
              num_services=S, num_os=O, num_processes=rng.randint(1, 3),
              num_exploits=rng.choice([None, S, min(S * (O + 1), 2 * S)]),
+             num_privescs=rng.choice([None, None, 2, 3, 4]),
              restrictiveness=rng.randint(1, max(1, S // 2)),
              lambda_V=rng.choice([1.0, 3.0, 6.0]),
              alpha_V=rng.choice([0.5, 2.0, 7.0]),
@@ -184,6 +185,11 @@ def gen_params(rng, tier):
              privesc_probs=rng.choice([None, 1.0]),
              random_goal=rng.random() < 0.3,
              seed=rng.randrange(2 ** 31))
+    if p["num_privescs"] is not None:
+        # more escalations than processes: the generator has to re-draw OSs
+        p["num_processes"] = rng.randint(1, 2)
+        p["num_privescs"] = min(p["num_privescs"],
+                                p["num_processes"] * (O + 1))
     return p
 
 
